@@ -240,6 +240,17 @@ Proof.
     apply (IH _ _ (poison_last_map _ _ HX) H6); [rewrite map_length; lia|exact Hqr].
 Qed.
 
+Lemma quiet_items : forall sg X p, pipe_ok X p sg -> existsb (fun s => negb (quiet s)) sg = false -> seg_items sg = 0.
+Proof.
+  induction sg as [|s rest IH]; intros X p H Hq; [reflexivity|].
+  rewrite pipe_ok_cons in H. destruct H as (H1 & H2 & H3 & H4 & H5 & H6).
+  simpl in Hq. apply orb_false_iff in Hq. destruct Hq as [A B]. apply negb_false_iff in A.
+  specialize (IH _ _ H6 B). unfold seg_items in *. simpl. unfold quiet in A.
+  destruct (sphase s) eqn:Eph; try discriminate.
+  - destruct (sq s); [simpl; lia|discriminate].
+  - rewrite H4. replace (p - length (sseen s)) with 0 by lia. simpl. lia.
+Qed.
+
 (* ------------------------------------------------------------------------------------------- *)
 Section ChainInv.
 Variable b : nat.                    (* block_count = capacity of every queue *)
@@ -381,5 +392,99 @@ Proof.
       * destruct (Hstep ltac:(discriminate)) as (Hnb & Hn' & Hin'). rewrite Hnb.
         constructor; cfields; auto; try solve [exists done; exact K1]; try solve [unfold src_p in *; cfields; exact K3]; try solve [discriminate].
       * constructor; cfields; auto; try solve [exists done; exact K1]; try solve [unfold src_p in *; cfields; exact K3]; try solve [discriminate].
+Qed.
+
+Lemma chain_run_none : forall sched, fold_left (fun o t => match o with Some x => cstep b x t | None => None end) sched None = None.
+Proof. induction sched; simpl; auto. Qed.
+Lemma chain_reach_inv : forall sched c c', KInv c -> chain_run b sched c = Some c' -> KInv c'.
+Proof.
+  induction sched as [|t sched IH]; intros c c' HI Hr; unfold chain_run in Hr; simpl in Hr.
+  - injection Hr as <-. exact HI.
+  - destruct (cstep b c t) as [c1|] eqn:E; [|rewrite chain_run_none in Hr; discriminate].
+    apply (IH c1); [eapply chain_step_inv; eassumption|exact Hr].
+Qed.
+Definition chain_reachable (c : chain) : Prop := exists sched, chain_run b sched (chain_init b payloads fs) = Some c.
+Lemma chain_reachable_inv : forall c, chain_reachable c -> KInv c.
+Proof. intros c [sched H]. eapply chain_reach_inv; [apply chain_init_inv|exact H]. Qed.
+
+(* the stream a worker is fed: the source's blocks and the poison, through the functions of the workers before it *)
+Definition stream_into (pre : list (payload -> payload)) : list citem := fold_left (fun X f => map (lift f) X) pre X0.
+
+Lemma pipe_ok_nth : forall sg X p pre s post, pipe_ok X p sg -> sg = pre ++ s :: post ->
+  sseen s = firstn (length (sseen s)) (fold_left (fun X f => map (lift f) X) (map sf pre) X) /\
+  (sphase s = PDone -> sseen s = fold_left (fun X f => map (lift f) X) (map sf pre) X).
+Proof.
+  induction sg as [|s0 rest IH]; intros X p pre s post H E; [destruct pre; discriminate|].
+  rewrite pipe_ok_cons in H. destruct H as (H1 & H2 & H3 & H4 & H5 & H6).
+  destruct pre as [|s1 pre']; simpl in E; injection E as -> ->.
+  - simpl. split; [exact H1|]. intros Ed. rewrite Ed in H5. rewrite H1, H5. apply firstn_all.
+  - simpl. eapply IH; [exact H6|reflexivity].
+Qed.
+
+(* Kahn determinism / production order: whatever the schedule, every worker has received a prefix of one fixed stream *)
+Theorem chain_kahn : forall c, chain_reachable c -> forall pre s post, segs c = pre ++ s :: post ->
+  sseen s = firstn (length (sseen s)) (stream_into (firstn (length pre) fs)) /\ map sf (segs c) = fs.
+Proof.
+  intros c H pre s post E. destruct (chain_reachable_inv c H) as [_ _ K3 K4 _ _].
+  destruct (pipe_ok_nth _ _ _ _ _ _ K3 E) as [A _]. split; [|exact K4].
+  unfold stream_into. rewrite <- K4, E, map_app, firstn_app, map_length, Nat.sub_diag. simpl. rewrite app_nil_r.
+  rewrite <- (map_length sf pre), firstn_all. exact A.
+Qed.
+
+(* the number of blocks is conserved while the workers run: b items in the queues and in the workers' hands *)
+Theorem chain_conservation : forall c, chain_reachable c -> mainp c = MJoin ->
+  length (q0 c) + src_hold c + seg_items (segs c) = b.
+Proof. intros c H Em. destruct (chain_reachable_inv c H) as [_ _ _ _ K5 _]. rewrite Em in K5. exact K5. Qed.
+
+(* Chain::Wait never sees more than block_count blocks before the poison *)
+Theorem chain_no_abort : forall c, chain_reachable c -> mainp c <> MAbort.
+Proof. intros c H E. destruct (chain_reachable_inv c H) as [_ _ _ _ K5 _]. rewrite E in K5. exact K5. Qed.
+
+(* when Wait has returned, every worker has received its whole stream (all blocks, in production order, then the poison) *)
+Theorem chain_finished : forall c, chain_reachable c -> mainp c = MDone -> forall pre s post, segs c = pre ++ s :: post ->
+  sseen s = stream_into (firstn (length pre) fs) /\ sphs c = SDone /\ srest c = [].
+Proof.
+  intros c H Em pre s post E. destruct (chain_reachable_inv c H) as [_ K2 K3 K4 K5 _]. rewrite Em in K5. destruct K5 as [Es Ed].
+  split; [|split; [exact Es|exact (K2 Es)]].
+  assert (Hs : sphase s = PDone).
+  { unfold all_done in Ed. rewrite forallb_forall in Ed. specialize (Ed s). rewrite E in Ed.
+    assert (Hin : In s (pre ++ s :: post)) by (apply in_or_app; right; left; reflexivity).
+    specialize (Ed Hin). destruct (sphase s); try discriminate. reflexivity. }
+  destruct (pipe_ok_nth _ _ _ _ _ _ K3 E) as [_ A].
+  unfold stream_into. rewrite <- K4, E, map_app, firstn_app, map_length, Nat.sub_diag. simpl. rewrite app_nil_r.
+  rewrite <- (map_length sf pre), firstn_all. exact (A Hs).
+Qed.
+
+(* no deadlock: until Wait has returned some thread can step *)
+Theorem chain_no_deadlock : forall c, chain_reachable c -> mainp c <> MDone -> exists t c', cstep b c t = Some c'.
+Proof.
+  intros c H Hm. pose proof (chain_reachable_inv c H) as HK. pose proof (segs_ne c HK) as Hne.
+  pose proof HK as [[done K1] K2 K3 K4 K5 K6].
+  destruct (mainp c) as [|n| |] eqn:Em; try congruence.
+  - (* workers running *)
+    destruct (sphs c) eqn:Eph.
+    + (* source wants a block *)
+      destruct (existsb (fun s => negb (quiet s)) (segs c)) eqn:Eq.
+      * destruct (wstep_enabled b (segs c) (q0 c) ltac:(unfold src_hold in K5; lia) Eq) as (i & sg' & q' & Hw).
+        exists (TW i). simpl. rewrite Hw. eauto.
+      * (* everything downstream is idle and empty: all b blocks are in queue 0 *)
+        assert (Hi : seg_items (segs c) = 0) by (eapply quiet_items; [exact K3|exact Eq]).
+        unfold src_hold in K5. rewrite Eph in K5. exists TSrc. simpl. rewrite Eph. destruct (q0 c); [simpl in K5; lia|eauto].
+    + (* source holds a block: there is room in the first queue *)
+      destruct (segs c) as [|s1 rest] eqn:Es; [congruence|]. exists TSrc. simpl. rewrite Eph, Es.
+      assert (Hl : (length (sq s1) <? b) = true).
+      { apply Nat.ltb_lt. unfold src_hold, seg_items in K5. rewrite Eph in K5. simpl in K5. lia. }
+      rewrite Hl. destruct (srest c); eauto.
+    + (* source finished *)
+      destruct (existsb (fun s => negb (quiet s)) (segs c)) eqn:Eq.
+      * destruct (wstep_enabled b (segs c) (q0 c) ltac:(unfold src_hold in K5; lia) Eq) as (i & sg' & q' & Hw).
+        exists (TW i). simpl. rewrite Hw. eauto.
+      * assert (Hd : all_done (segs c) = true).
+        { eapply quiet_all_done; [apply X0_poison_last|exact K3| |exact Eq]. unfold src_p. rewrite Eph. reflexivity. }
+        exists TMain. simpl. rewrite Em, Eph, Hd. eauto.
+  - (* draining queue 0: the poison is in it *)
+    destruct K5 as (_ & _ & _ & Hin). exists TMain. simpl. rewrite Em.
+    destruct (q0 c) as [|x q']; [destruct Hin|]. destruct x; eauto.
+  - destruct K5.
 Qed.
 End ChainInv.
